@@ -6,6 +6,7 @@
 package main
 
 import (
+	"context"
 	"encoding/binary"
 	"fmt"
 	"io"
@@ -15,9 +16,11 @@ import (
 	"strconv"
 	"strings"
 	"testing/iotest"
+	"time"
 
 	"shanhu.io/g/sniproxy"
 	"verif/harness/hx"
+	"verif/harness/snix"
 )
 
 // field kinds per struct, in declaration order: n integer, b bytes, e remote error
@@ -672,6 +675,52 @@ func main() {
 			}
 		} else {
 			rep.Note("golden vectors not found: %v", err)
+		}
+	}
+
+	// the requests the real client sends, per tunnel mode, must be frames the real server decodes as
+	// requests (encoder call sites and decoder dispatch agree on code and layout)
+	if f.Replay == "" || (len(ops) > 0 && strings.HasPrefix(ops[0], "clireq")) {
+		modes := []string{"legacy", "siding", "siding-addr"}
+		if f.Replay != "" {
+			modes = nil
+			for _, op := range ops {
+				modes = append(modes, kvGet(strings.Fields(op), "mode"))
+			}
+			ops = nil
+		}
+		for _, mode := range modes {
+			op := "clireq mode=" + mode
+			rep.Case(op, true)
+			rep.Count("clireq")
+			opt := &sniproxy.Options{Siding: mode != "legacy", DialWithAddr: mode == "siding-addr"}
+			p, err := snix.NewPeerOpt(opt)
+			if err != nil {
+				rep.Note("clireq: %v", err)
+				continue
+			}
+			go func() {
+				ctx, cancel := context.WithTimeout(context.Background(), 800*time.Millisecond)
+				defer cancel()
+				if conn, err := p.Client.Dial(ctx, "192.0.2.7:4321"); err == nil {
+					conn.Close()
+				}
+			}()
+			r, ok := p.NextReq(3 * time.Second)
+			if !ok {
+				rep.Fail("client-request-missing:"+mode, "Dial sent no request frame", []string{op})
+				p.Close(2 * time.Second)
+				continue
+			}
+			frame := append(append(snix.U64(r.ID), r.Typ), r.Body...)
+			out, _, typ, vals, _ := sniproxy.VerifServerFrame(frame)
+			want := map[string]uint8{"legacy": 2, "siding": 8, "siding-addr": 9}[mode]
+			if out != "request" {
+				rep.Fail("client-request-rejected-by-server:"+mode, fmt.Sprintf("the dial request the client sends in mode %s (type %d, %d body bytes) is not decoded as a request by the server: %s", mode, r.Typ, len(r.Body), out), []string{op})
+			} else if typ != want || len(vals) != len(kinds[reqOf[want]]) {
+				rep.Fail("client-request-rejected-by-server:"+mode, fmt.Sprintf("the dial request of mode %s has type %d with %d fields, deployed servers expect type %d with %d fields", mode, typ, len(vals), want, len(kinds[reqOf[want]])), []string{op})
+			}
+			p.Close(2 * time.Second)
 		}
 	}
 
